@@ -9,6 +9,7 @@ of the events (including their interleaving with sampling times and grid points)
 exact identity.  Consequences (all pieces equal ≡ constant model; scaling law) are checked on the same terms.
 """
 import itertools
+import json
 import random
 
 import torch
@@ -336,6 +337,62 @@ def replay_wrapper_dtype(args):
     return True, "held"
 
 
+def ob_json_event_data(kind):
+    """models built from a JSON specification that gives the genealogy as event data ('times' or 'intervals' + 'events', no tree model) with
+    float64 population sizes: the model value is the Kingman density of EXACTLY those times (decimal values that are not representable in
+    single precision), 1e-10 relative against the oracle in Python floats"""
+    def body():
+        import torchtree.evolution.coalescent as co
+        from torchtree.core.utils import process_object
+        times = [0.0, 0.0, 30.013, 30.013, 30.4571, 30.4572, 30.9017, 31.3003, 33.1234567, 35.00001, 40.7]
+        events = [1, 1, 1, 1, 0, 1, 0, 0, 0, 0, 0]     # 1 = sampling, 0 = coalescence (6 tips, 5 coalescences... kept consistent below)
+        events = [1, 1, 1, 1, 0, 1, 0, 1, 0, 0, 0]
+        tips = [t for t, e in zip(times, events) if e == 1]
+        coal = [t for t, e in zip(times, events) if e == 0]
+        P = lambda i, v: {"id": i, "type": "Parameter", "tensor": v, "dtype": "torch.float64"}
+        n_coal = len(coal)
+        specs = {
+            "constant": ({"type": "ConstantCoalescentModel", "theta": P("theta", [3.7])}, lambda: kingman.Constant(3.7)),
+            "exponential": ({"type": "ExponentialCoalescentModel", "theta": P("theta", [3.7]), "growth": P("growth", [0.013])}, lambda: kingman.Exponential(3.7, 0.013)),
+            "skyride": ({"type": "PiecewiseConstantCoalescentModel", "theta": P("theta", [3.7, 1.3, 2.2, 5.1, 0.9][:n_coal])}, lambda: kingman.Skyride([3.7, 1.3, 2.2, 5.1, 0.9][:n_coal])),
+            "skygrid": ({"type": "PiecewiseConstantCoalescentGridModel", "theta": P("theta", [3.7, 1.3, 2.2]), "grid": [30.2, 32.5]}, lambda: kingman.GridConstant([3.7, 1.3, 2.2], [30.2, 32.5])),
+        }
+        spec, demo = specs[kind]
+        n = 0
+        from vt.runner import default_dtype
+        for form, dflt in (("times", torch.float64), ("intervals", torch.float64), ("times", torch.float32), ("intervals", torch.float32)):
+          with default_dtype(dflt):
+              d = dict(json.loads(json.dumps(spec)), id="c_%s_%s" % (form, str(dflt)[-2:]))
+              d = json.loads(json.dumps(d).replace('"theta"', '"theta"'))
+              for k_, v_ in list(d.items()):
+                  if isinstance(v_, dict) and "id" in v_:
+                      v_["id"] = v_["id"] + "_" + form + str(dflt)[-2:]
+              if form == "times":
+                  d["times"] = times
+              else:
+                  d["intervals"] = [b - a for a, b in zip(times[:-1], times[1:])]
+              d["events"] = events
+              m = process_object(d, {})
+              got = float(m().reshape(-1)[0])
+              want = float(kingman.log_density(tips, coal, demo()))
+              tol = 1e-10 if form == "times" else 1e-9      # 'intervals' are re-accumulated: a few ulps of the sum
+              n += 1
+              if abs(got - want) > tol * max(1.0, abs(want)):
+                  raise Refuted("%s coalescent built from JSON event data (%s): model returns %.12f, Kingman density of the given times %.12f"
+                                % (kind, form, got, want), witness={"kind": kind, "form": form},
+                                replay={"kind": "custom", "contract": "C08", "func": "replay_json_event_data", "args": {"kind": kind}}, confirmed=True)
+        return {"backend": "heap", "cases": n, "statement": "%s from JSON event data (times / intervals): Kingman density of exactly the given times" % kind}
+    return Ob("C08.json_event_data[%s]" % kind, "B", body, clause="the density is that of the genealogy given in the specification (event-data form, float64)", funcs=FUNCS)
+
+
+def replay_json_event_data(args):
+    try:
+        ob_json_event_data(args["kind"]).fn()
+    except Refuted as e:
+        return False, e.detail
+    return True, "held"
+
+
 def replay_wrapper_history(args):
     try:
         ob_wrapper_history(args["kind"], args["depth"]).fn()
@@ -346,6 +403,8 @@ def replay_wrapper_history(args):
 
 def obligations(tier, seed):
     obs = []
+    for kind in ("constant", "exponential", "skyride", "skygrid"):
+        obs.append(ob_json_event_data(kind))
     for kind in MODEL_WRAPPERS:
         obs.append(ob_wrapper_history(kind, 3 if tier == "quick" else 4))
         obs.append(ob_wrapper_dtype(kind))
